@@ -904,7 +904,7 @@ func c05Reference(c *Ctx) {
 	if fd := c.NeedDecl("C05.R6", "(*list).IndexOf"); fd != nil {
 		n++
 		ob := c.Ob("C05.R6", "(*list).IndexOf", fd.Pos())
-		why := searchLoopShape(c, fd, "key")
+		why := searchShape(c, fd, "key")
 		if why == "" {
 			ob.Ok("first index whose getVal() == value, else -1")
 		} else {
@@ -912,103 +912,6 @@ func c05Reference(c *Ctx) {
 		}
 	}
 	c.R.Floor("C05.R6", n, 2)
-}
-
-// searchLoopShape checks `for k, e := range recv.spine { if e.getVal() == param { return HIT } }; MISS`.
-// what: "key" (return the range key, miss = -1), "true" (return true, miss = false), "keyOrPanic" (return key, miss = panic).
-func searchLoopShape(c *Ctx, fd *ast.FuncDecl, what string) string {
-	paths, why := c.runPaths(fd)
-	if why != "" {
-		return "body outside the path vocabulary: " + why
-	}
-	v := c.view(fd)
-	par := soleParam(c, fd)
-	var loop *LoopRec
-	misses := 0
-	for _, p := range paths {
-		hasLoop := false
-		for _, s := range p.Steps {
-			switch s.Kind {
-			case "loop":
-				loop, hasLoop = s.Loop, true
-			case "cond":
-			default:
-				return "unexpected effect " + c.stepStr(s)
-			}
-		}
-		if !hasLoop {
-			return "a path bypasses the search loop"
-		}
-		// the outer path that is not an in-loop exit: ends after the loop
-		last := p.Steps[len(p.Steps)-1]
-		if last.Kind == "loop" {
-			misses++
-			switch what {
-			case "key":
-				k, ok := constInt(simplifyRet(p))
-				if p.End != "return" || !ok || k != -1 {
-					return "an exhausted search does not return -1"
-				}
-			case "true":
-				if p.End != "return" || len(p.Vals) != 1 || !isConstBoolTerm(simplify(p.Vals[0]), false) {
-					return "an exhausted search does not return false"
-				}
-			case "keyOrPanic":
-				if p.End != "panic" {
-					return "an exhausted search does not panic"
-				}
-			}
-		}
-	}
-	if loop == nil || misses != 1 {
-		return "expected exactly one search loop followed by the miss result"
-	}
-	if loop.Range == nil || !v.isRecvSpine(loop.Over) {
-		return "the loop does not range over the receiver's own spine"
-	}
-	if len(loop.Iter) != 2 {
-		return "loop body is not a single match test"
-	}
-	for _, ip := range loop.Iter {
-		conds := ip.Conds()
-		if len(conds) != 1 || len(ip.Effects()) != 0 {
-			return "loop body is not a single match test"
-		}
-		b, ok := conds[0].T.(TBin)
-		if !ok || (b.Op != token.EQL && b.Op != token.NEQ) {
-			return "match test is not an == comparison"
-		}
-		elemVal := func(t Term) bool {
-			e, ok := v.valueOf(t)
-			if !ok {
-				return false
-			}
-			if loop.Value != nil && isParamTerm(e, loop.Value) {
-				return true
-			}
-			ix, ok := e.(TIndex)
-			return ok && v.isRecvSpine(ix.X) && loop.Key != nil && isParamTerm(ix.I, loop.Key)
-		}
-		if !((elemVal(b.X) && isParamTerm(b.Y, par)) || (elemVal(b.Y) && isParamTerm(b.X, par))) {
-			return "match test does not compare element.getVal() with the argument"
-		}
-		match := conds[0].Truth == (b.Op == token.EQL)
-		if match {
-			switch what {
-			case "key", "keyOrPanic":
-				if ip.End != "return" || len(ip.Vals) != 1 || loop.Key == nil || !isParamTerm(ip.Vals[0], loop.Key) {
-					return "a match does not return the range key"
-				}
-			case "true":
-				if ip.End != "return" || len(ip.Vals) != 1 || !isConstBoolTerm(simplify(ip.Vals[0]), true) {
-					return "a match does not return true"
-				}
-			}
-		} else if ip.End != "fall" && ip.End != "continue" {
-			return "a non-match does not continue the search"
-		}
-	}
-	return ""
 }
 
 func simplifyRet(p *Path) Term {
